@@ -23,6 +23,9 @@ EXTENDS PropsMath, Sequences, FiniteSets, TLC
 
 Range(s) == {s[i] : i \in DOMAIN s}
 
+\* absent optional account / identifier (the numeric None of Formulas carries N0 and cannot sit in a set with strings)
+NoneS == [some |-> FALSE, v |-> ""]
+
 Native(d) == [native |-> TRUE,  id |-> d]
 Token(t)  == [native |-> FALSE, id |-> t]
 
